@@ -64,6 +64,9 @@ def ensure_perms(d1, d2=None):
             os.chmod(d1.location, m)
         if do_mtime and t is not None:
             os.utime(d1.location, (t, t))
+    elif do_mtime and t is not None and os.utime in os.supports_follow_symlinks:
+        # the symlink itself carries the recorded mtime, never its target
+        os.utime(d1.location, (t, t), follow_symlinks=False)
     return True
 
 
